@@ -92,36 +92,73 @@ class Sim:
         self.exited = False
         self.batch_bytes = {}
         self.l_held = 0
+        self.hooks = []          # armed: dict(cb, id, act, t)
+        self.dirty = set()       # ids with an unsynced act that makes the loop call back on them
 
     def emit(self, s):
         self.ops.append(s)
+
+    def fire(self, cb, c):
+        """the hosted worker acts of callback cb on c happen now (Sim's view of them)"""
+        mine = [h for h in self.hooks if h["cb"] == cb and h["id"] == c]
+        self.hooks = [h for h in self.hooks if not (h["cb"] == cb and h["id"] == c)]
+        for h in mine:
+            t = h["t"]
+            d = self.ids.get(t)
+            if d is None:
+                continue
+            if h["act"] == "wrel":
+                if d["held"] > 0:
+                    d["held"] -= 1
+                    if d["held"] == 0 and t not in self.reg and t not in self.pending:
+                        d["alive"] = False
+            elif d["alive"] and (t == c or d["held"] > 0):
+                d["held"] += 1
+
+    def turn(self, c):
+        d = self.ids[c]
+        closing = (not d["copen"]) or d["shut"]
+        if closing or self.batch_bytes.get(c, (0, 0))[0] > 0:
+            self.fire("msg", c)
+        if closing:
+            self.fire("close", c)
+            self.reg.discard(c)
+            d["alive"] = d["held"] > 0
+            d["gone"] = True
 
     def sync(self):
         self.emit("sync")
         if self.exited:
             return
-        for c in list(self.reg):
-            if c and (not self.ids[c]["copen"] or self.ids[c]["shut"]):
-                self.reg.discard(c)
-                self.ids[c]["alive"] = self.ids[c]["held"] > 0
+        for c in sorted(self.reg):
+            if c:
+                self.turn(c)
         for c in self.pending:
             d = self.ids[c]
             if d["kind"] == "conn" and not d["alloc"]:
                 d["alive"] = False
                 d["gone"] = True
             elif self.cap is not None and len(self.reg) >= self.cap:
-                d["alive"] = False
-                d["gone"] = True
-            elif not d["copen"] or d["shut"]:
-                d["alive"] = d["held"] > 0
+                d["alive"] = d["kind"] == "hand" and d["held"] > 0
                 d["gone"] = True
             else:
                 self.reg.add(c)
                 d["alive"] = True
+                self.turn(c)
         self.pending = []
         self.fail_conn_in_batch = False
         self.shut_in_batch = False
         self.batch_bytes = {}
+        self.dirty = set()
+
+    def hook_race(self, t):
+        """free-running loop: would a worker act on t now race with a hosted act that may be firing,
+        or with the close callback of t (which reports the count it sees)?"""
+        if self.parked:
+            return False
+        d = self.ids.get(t)
+        closing = d is not None and t in self.dirty and ((not d["copen"]) or d["shut"])
+        return closing or any(h["t"] == t and h["id"] in self.dirty for h in self.hooks)
 
     def room(self):
         return None if self.cap is None else self.cap - len(self.reg) - len(self.pending)
@@ -175,11 +212,14 @@ class Sim:
                 nb, nw = self.batch_bytes.get(c, (0, 0))
                 if nb + n <= 40000 and nw + (n + frag - 1) // frag <= 150:
                     self.batch_bytes[c] = (nb + n, nw + (n + frag - 1) // frag)
+                    if n > 0:
+                        self.dirty.add(c)
                     self.emit("send %d %d %d" % (c, n, frag))
         elif r < 0.62 and ids:
             c = rng.choice(ids)
             if self.ids[c]["copen"]:
                 self.ids[c]["copen"] = False
+                self.dirty.add(c)
                 self.emit("pclose %d" % c)
         elif r < 0.72 and ids:
             c = rng.choice(ids + [0])
@@ -189,6 +229,9 @@ class Sim:
             else:
                 d = self.ids[c]
                 can = d["alive"] and (d["held"] > 0 or (self.parked and not self.exited and not self.pending_has(c)))
+            if c and self.hook_race(c):
+                self.sync()
+                can = self.ids[c]["alive"] and self.ids[c]["held"] > 0
             if can or rng.random() < 0.05:
                 self.emit("retain %d" % c)
                 if can:
@@ -200,6 +243,10 @@ class Sim:
             held = [c for c in ids if self.ids[c]["held"] > 0] + ([0] if self.l_held else [])
             if held:
                 c = rng.choice(held)
+                if c and self.hook_race(c):
+                    self.sync()
+                    if self.ids[c]["held"] == 0:
+                        return
                 if c:
                     d = self.ids[c]
                     d["held"] -= 1
@@ -209,7 +256,10 @@ class Sim:
                     self.l_held -= 1
                 self.emit("wrel %d" % c)
             elif rng.random() < 0.1:
-                self.emit("wrel %d" % rng.choice(ids))
+                c = rng.choice(ids)
+                if self.hook_race(c):
+                    self.sync()
+                self.emit("wrel %d" % c)
         elif r < 0.85 and ids:
             c = rng.choice(ids)
             d = self.ids[c]
@@ -217,11 +267,27 @@ class Sim:
             # outside the envelope (back-ends legitimately differ, C13): shutting down a context
             # that still has unread bytes (select closes it without the read callback), or one
             # that is still in the hand-over queue
-            if can and not d["shut"] and c not in self.pending and c not in self.batch_bytes:
+            msg_hook = any(h["cb"] == "msg" and h["id"] == c for h in self.hooks)
+            if can and not d["shut"] and c not in self.pending and c not in self.batch_bytes and not msg_hook \
+                    and not self.hook_race(c):
                 d["shut"] = True
                 self.shut_in_batch = True
+                self.dirty.add(c)
                 self.emit("shut %d" % c)
-        elif r < 0.90 and not self.exited:
+        elif r < 0.89 and ids and not self.exited:
+            c = rng.choice(ids)
+            d = self.ids[c]
+            cb = rng.choice(["msg", "close", "close"])
+            t = c     # hosted acts on another context would make that context's observations depend on
+                      # the back-end's order inside one round; those are enumerated in gen_incb instead
+            act = rng.choice(["wrel", "wrel", "retain"])
+            if not d["gone"] and not (cb == "msg" and d["shut"]) and len(self.hooks) < 100:
+                if not self.parked and c in self.dirty:
+                    self.sync()
+                if not self.ids[c]["gone"]:
+                    self.hooks.append(dict(cb=cb, id=c, act=act, t=t))
+                    self.emit("incb %s %d %s %d" % (cb, c, act, t))
+        elif r < 0.93 and not self.exited:
             if self.parked:
                 self.emit("unpark")
                 self.parked = False
@@ -283,7 +349,31 @@ def gen_random(ctx, n_cases, max_conn):
 
 
 ALPHA = ["conn 1", "conn 0", "hand", "send 1 5 2", "send 2 300 7", "pclose 1", "pclose 2", "retain 1", "retain 2",
-         "wrel 1", "shut 1", "shut 2", "park", "unpark"]
+         "wrel 1", "shut 1", "shut 2", "park", "unpark",
+         "incb close 1 wrel 1", "incb close 1 retain 1", "incb msg 1 wrel 1", "incb msg 1 retain 1"]
+
+# the histories of the class "a worker acts while the loop is inside a callback", completely,
+# around one retained connection: every choice of (callback, hosted act) x (how the turn is triggered)
+def gen_incb(configs):
+    cases = []
+    tail = ["exit", "wrel 1", "wrel 1", "wrel 1", "wrel 2", "wrel 2", "sync", "end"]
+    for be, hints, fam, rd in configs:
+        for nret in (0, 1, 2):
+            for hooks in itertools.product(["", "incb close 1 wrel 1", "incb close 1 retain 1", "incb msg 1 wrel 1",
+                                            "incb msg 1 retain 1", "incb close 1 wrel 2", "incb msg 2 wrel 1"], repeat=2):
+                for trig in (["send 1 9 2", "sync", "pclose 1", "sync"], ["send 1 9 2", "pclose 1", "sync"],
+                             ["shut 1", "sync"], ["pclose 1", "sync", "exit"]):
+                    if trig[0].startswith("shut") and any(h.startswith("incb msg") for h in hooks):
+                        continue      # select closes a shut-down context without the read callback (C13)
+                    for parked in (False, True):
+                        ops = ["new %d %d %s %d" % (be, hints, fam, rd), "conn 1", "hand", "sync", "park"]
+                        ops += ["retain 1"] * nret + ["retain 2"]
+                        ops += [h for h in hooks if h]
+                        if not parked:
+                            ops += ["unpark"]
+                        ops += ["sync"] + trig
+                        cases.append(ops + tail)
+    return cases
 
 
 def gen_exhaustive(ctx, length, configs):
@@ -317,7 +407,7 @@ def judge_seq(ops, out):
         if "TIMEOUT" in l:
             return "the event loop did not reach quiescence (hang)"
         if l.startswith("end "):
-            m = re.match(r"end exited=\d leaks=(\S+) multi=(\S+) bad=(\S+) lost=(\S+) fdl=(\S+) wild=(\d+)", l)
+            m = re.match(r"end exited=\d leaks=(\S+) multi=(\S+) bad=(\S+) lost=(\S+) fdl=(\S+) unowned=(\S+) wild=(\d+)", l)
             if not m:
                 return "malformed end line: " + l
             if m.group(1) != "-":
@@ -330,7 +420,10 @@ def judge_seq(ops, out):
                 return "bytes sent before the peer closed never reached cb_msg for: " + m.group(4)
             if m.group(5) != "-":
                 return "server-side descriptor never closed although its context is gone / was never created: " + m.group(5)
-            if m.group(6) != "0":
+            if m.group(6) != "-":
+                return ("a user callback ran on a context while the loop's own reference was not counted "
+                        "(count seen inside the callback < 1 + workers' retains): " + m.group(6))
+            if m.group(7) != "0":
                 return "free or callback on a context that is not live / accept identity mismatch / timeout"
     return None
 
@@ -343,7 +436,7 @@ def signature_seq(ops, a):
     out = a["out"]
     end = next((l for l in out if l.startswith("end ")), "")
     if re.search(r"leaks=\d", end) and any(o == "hand" for o in ops) and ops[0].startswith("new 2 ") \
-            and " multi=- bad=- lost=- fdl=- wild=0" in end and not a["crash"]:
+            and " multi=- bad=- lost=- fdl=- unowned=- wild=0" in end and not a["crash"]:
         return "on-wake-add-failure-leak"
     return None
 
@@ -430,13 +523,15 @@ def seq_cases(ctx):
     if q:
         cfgs = [(2, 2, "u", 3), (3, 8, "u", 64)]
         cases += gen_exhaustive(ctx, 2, cfgs + [(1, 8, "t", 1)])
-        cases += gen_exhaustive(ctx, 3, [(2, 2, "u", 3)])[::3]
+        cases += gen_exhaustive(ctx, 3, [(2, 2, "u", 3)])[::7]
+        cases += gen_incb([(1, 8, "u", 3), (2, 8, "u", 64), (3, 8, "u", 1)])[::2]
         cases += gen_random(ctx, 1800, 12)
         cases += gen_random(ctx, 300, 33)
     else:
         cfgs = [(1, 8, "u", 1), (2, 2, "u", 3), (2, 3, "t", 7), (3, 8, "u", 64), (3, 1, "t", 4096)]
         cases += gen_exhaustive(ctx, 2, cfgs)
         cases += gen_exhaustive(ctx, 3, [(1, 8, "u", 7), (2, 2, "u", 3), (3, 8, "u", 64)])
+        cases += gen_incb([(1, 8, "u", 3), (2, 8, "u", 64), (3, 8, "u", 1), (2, 3, "t", 7), (3, 8, "t", 4096)])
         cases += gen_random(ctx, 60000, 12)
         cases += gen_random(ctx, 12000, 33)
     return cases
@@ -447,12 +542,12 @@ def main(ctx):
     ctx.assumptions += TRUSTED[3:]
     ctx.cov["rule"] = (
         "part 1 (tie B): every sequence of 2..3 acts over {connect ok/alloc-fail, hand-over, send, peer close, "
-        "retain, worker release, shutdown, park, unpark} each followed by a quiescing sync, on select / poll "
+        "retain, worker release, shutdown, park, unpark, worker release / retain hosted INSIDE cb_msg / cb_close} each followed by a quiescing sync, on select / poll "
         "(capacity 2) / epoll, AF_UNIX and loopback TCP, then exit; seeded random scenarios of up to 32 "
         "connections (payload sizes 0..20000, write fragmentation 1..100000, read chunk 1..4096, close order, "
         "retains released later, accept-time allocation failure, registration failure at poll capacity at accept "
         "time and at hand-over time, batches issued while the loop is parked inside cb_wake or running, contexts "
-        "queued at exit, exit at a random point); malformed stream; corpus. part 2 (tie C): seeded random/PCT "
+        "queued at exit, worker acts hosted inside callbacks, exit at a random point); every (hosted act x hosted act x trigger x parked/free x 0..2 retains) history around one retained connection; the reference count seen inside every cb_conn / cb_add_ctx / cb_close / cb_release is compared with the model; malformed stream; corpus. part 2 (tie C): seeded random/PCT "
         "schedules of 1..4 writers + reader over the real pipe code, FIFO capacity 1..4096, scripted partial "
         "writes/reads. distinct = distinct op lists / distinct implementation traces; non-trivial (part 1) = at "
         "least one context closed by the loop and the loop exited")
